@@ -204,8 +204,13 @@ def FileInfo.fieldBytes (fi : FileInfo) : FIField → Bytes
   | .checksum_bytes => fi.checksum_bytes
   | f => wLE 8 (fi.getScalar f)
 
+/-- `FileInfo::isMissing` -/
+def FileInfo.cppIsMissing (a : FileInfo) : Bool := fileInfoMissingFields.all fun f => a.fieldBytes f == FileInfo.zero.fieldBytes f
+
 /-- `FileInfo::operator==` -/
-def FileInfo.cppEq (a b : FileInfo) : Bool := fileInfoEqFields.all fun f => a.fieldBytes f == b.fieldBytes f
+def FileInfo.cppEq (a b : FileInfo) : Bool :=
+  (!fileInfoEqChecksMissing || a.cppIsMissing == b.cppIsMissing) &&
+  fileInfoEqFields.all fun f => a.fieldBytes f == b.fieldBytes f
 
 /-! ## BuildValue.h -/
 
